@@ -9,6 +9,7 @@ import KitProofs.Lemmas.EncHeader
 import KitProofs.Lemmas.EncDecrypt
 import KitProofs.Lemmas.EncTamper
 import KitProofs.Lemmas.EncToy
+import KitProofs.Lemmas.EncMutations
 
 namespace Kit.Enc.C02
 open Kit Kit.Enc
@@ -145,6 +146,161 @@ theorem header_only_accepted (c : Crypto) (cd : Codec) (P : EncParams) (pwf : P.
   have hpos : 0 < P.segSize + P.overhead := by have := pwf.seg_pos; omega
   rw [hdec, processSegments_nil _ _ hpos _ r' hrt hrs]
 
+
+/-! ### one corollary per mutation class
+
+Notation: `segs = segments P.segSize p` the honest plaintext segments, `ctOf … j` the honest sealed
+segment `j`, `prefixBytes … j` the bytes of the first `j` sealed segments, `headTo segs j` the plaintext
+of the first `j` segments; `T = segSize + overhead`. Every statement is about `processSegments` with
+`DecryptSegment` over **any** source script delivering the mutated payload, under the no-forgery
+hypothesis about the pieces that payload presents. Each ends with `ErrDecryptionFailed` after
+releasing exactly the untouched leading segments. -/
+
+section classes
+variable (c : Crypto) (P : EncParams) (pwf : P.WF) (cph : Nat) (pk np : Bytes) (lc : c.LawfulFor P pk np) (p : Bytes)
+include pwf lc
+
+/-- **Bit flips (or any change) inside sealed segment `j`, body or tag**: the segment's bytes are
+    replaced by different bytes of the same length; whatever follows. -/
+theorem flip_in_segment_detected (j : Nat) (hj : j < (segments P.segSize p).length) (hmax : j ≤ P.maxSeg)
+    (x' post : Bytes) (hlen : x'.length = (ctOf c P cph pk np (segments P.segSize p) j).length)
+    (hne : x' ≠ ctOf c P cph pk np (segments P.segSize p) j)
+    (r : Reader) (heof : r.term = .eof)
+    (hstream : r.stream = prefixBytes c P cph pk np (segments P.segSize p) j ++ (x' ++ post))
+    (nf : PresentedNoForgery c P cph pk np (segments P.segSize p) (segments (P.segSize + P.overhead) r.stream) 0) :
+    (processSegments (P.segSize + P.overhead) P.maxSeg (decryptSeg c P cph pk np) r).out = headTo (segments P.segSize p) j ∧
+    (processSegments (P.segSize + P.overhead) P.maxSeg (decryptSeg c P cph pk np) r).term = .err .decryptFailed := by
+  have hsh := segments_shape P.segSize pwf.seg_pos p
+  obtain ⟨hpos, hle, _, _⟩ := shape_getElem P.segSize _ j hj hsh
+  have hct := ctOf_length c P cph pk np lc _ j hj
+  apply payload_deviation_detected c P pwf cph pk np lc p j hj hmax (x' ++ post) ?_ ?_ r heof hstream nf
+  · intro h
+    have := congrArg List.length h
+    simp only [List.length_append, List.length_nil] at this
+    omega
+  · left
+    intro h
+    apply hne
+    have h1 : ((x' ++ post).take (P.segSize + P.overhead)).take x'.length = x' := by
+      rw [List.take_take, Nat.min_eq_left (by omega), List.take_left']
+      rfl
+    rw [h, hlen, List.take_of_length_le (Nat.le_refl _)] at h1
+    exact h1.symm
+
+/-- **Truncation inside sealed segment `j`** (or the segment replaced by anything shorter): the
+    stream ends with fewer bytes than the segment has. -/
+theorem truncation_in_segment_detected (j : Nat) (hj : j < (segments P.segSize p).length) (hmax : j ≤ P.maxSeg)
+    (y : Bytes) (hy0 : y ≠ []) (hy : y.length < (ctOf c P cph pk np (segments P.segSize p) j).length)
+    (r : Reader) (heof : r.term = .eof)
+    (hstream : r.stream = prefixBytes c P cph pk np (segments P.segSize p) j ++ y)
+    (nf : PresentedNoForgery c P cph pk np (segments P.segSize p) (segments (P.segSize + P.overhead) r.stream) 0) :
+    (processSegments (P.segSize + P.overhead) P.maxSeg (decryptSeg c P cph pk np) r).out = headTo (segments P.segSize p) j ∧
+    (processSegments (P.segSize + P.overhead) P.maxSeg (decryptSeg c P cph pk np) r).term = .err .decryptFailed := by
+  apply payload_deviation_detected c P pwf cph pk np lc p j hj hmax y hy0 ?_ r heof hstream nf
+  left
+  intro h
+  have := congrArg List.length h
+  simp only [List.length_take] at this
+  omega
+
+/-- **Truncation at a segment boundary**: the stream ends right after `j ≥ 1` complete sealed
+    segments although more follow in the honest document — the last delivered segment is then
+    presented as final, which its nonce contradicts: it is *not* released. (`j = 0` is the bare
+    header: `header_only_accepted`.) -/
+theorem truncation_at_boundary_detected (j : Nat) (hj : j + 1 < (segments P.segSize p).length) (hmax : j ≤ P.maxSeg)
+    (r : Reader) (heof : r.term = .eof)
+    (hstream : r.stream = prefixBytes c P cph pk np (segments P.segSize p) (j + 1))
+    (nf : PresentedNoForgery c P cph pk np (segments P.segSize p) (segments (P.segSize + P.overhead) r.stream) 0) :
+    (processSegments (P.segSize + P.overhead) P.maxSeg (decryptSeg c P cph pk np) r).out = headTo (segments P.segSize p) j ∧
+    (processSegments (P.segSize + P.overhead) P.maxSeg (decryptSeg c P cph pk np) r).term = .err .decryptFailed := by
+  have hsh := segments_shape P.segSize pwf.seg_pos p
+  have hj' : j < (segments P.segSize p).length := by omega
+  obtain ⟨hpos, hle, hfull, _⟩ := shape_getElem P.segSize _ j hj' hsh
+  have hct := ctOf_length c P cph pk np lc _ j hj'
+  rw [prefixBytes_succ c P cph pk np _ j hj'] at hstream
+  apply payload_deviation_detected c P pwf cph pk np lc p j hj' hmax _ ?_ ?_ r heof hstream nf
+  · intro h; rw [h] at hct; simp at hct; omega
+  · right
+    rw [(hfull hj).2]
+    have : (ctOf c P cph pk np (segments P.segSize p) j).length ≤ P.segSize + P.overhead := by omega
+    simp [this]
+
+/-- **Appended bytes** after a complete honest payload of a non-empty message: the honest final
+    segment is no longer final (or no longer itself), so it is not released. -/
+theorem append_detected (k : Nat) (hk : (segments P.segSize p).length = k + 1) (hmax : k ≤ P.maxSeg)
+    (e : Bytes) (he : e ≠ [])
+    (r : Reader) (heof : r.term = .eof)
+    (hstream : r.stream = prefixBytes c P cph pk np (segments P.segSize p) (k + 1) ++ e)
+    (nf : PresentedNoForgery c P cph pk np (segments P.segSize p) (segments (P.segSize + P.overhead) r.stream) 0) :
+    (processSegments (P.segSize + P.overhead) P.maxSeg (decryptSeg c P cph pk np) r).out = headTo (segments P.segSize p) k ∧
+    (processSegments (P.segSize + P.overhead) P.maxSeg (decryptSeg c P cph pk np) r).term = .err .decryptFailed := by
+  have hsh := segments_shape P.segSize pwf.seg_pos p
+  have hj' : k < (segments P.segSize p).length := by omega
+  obtain ⟨hpos, hle, _, hlast⟩ := shape_getElem P.segSize _ k hj' hsh
+  have hct := ctOf_length c P cph pk np lc _ k hj'
+  have hepos : 0 < e.length := List.length_pos_iff.mpr he
+  rw [prefixBytes_succ c P cph pk np _ k hj', List.append_assoc] at hstream
+  apply payload_deviation_detected c P pwf cph pk np lc p k hj' hmax _ ?_ ?_ r heof hstream nf
+  · intro h; have := congrArg List.length h; simp only [List.length_append, List.length_nil] at this; omega
+  · by_cases hfit : (ctOf c P cph pk np (segments P.segSize p) k ++ e).length ≤ P.segSize + P.overhead
+    · left
+      rw [List.take_of_length_le hfit]
+      intro h; have := congrArg List.length h; simp only [List.length_append] at this; omega
+    · right
+      rw [hlast (by omega)]
+      simp only [List.length_append] at hfit
+      simp only [List.length_append, ne_eq, decide_eq_true_eq]
+      omega
+
+end classes
+
+/-- Honest entry `n` of the sealed list. -/
+theorem sealedSegs_getElem (c : Crypto) (P : EncParams) (cph : Nat) (pk np : Bytes) (segs : List (Bytes × Bool))
+    (n : Nat) (hn : n < segs.length) :
+    (sealedSegs c P cph pk np 0 segs)[n]? = some (ctOf c P cph pk np segs n, (segs[n]).2) := by
+  have h1 := sealedSegs_take_succ c P cph pk np segs n hn
+  have hlen : ∀ (l : List (Bytes × Bool)) (i : Nat), (sealedSegs c P cph pk np i l).length = l.length := by
+    intro l; induction l with
+    | nil => intro i; rfl
+    | cons a t ih => intro i; obtain ⟨d, f⟩ := a; rw [sealedSegs_cons]; simp [ih]
+  have h2 : sealedSegs c P cph pk np 0 segs =
+      sealedSegs c P cph pk np 0 (segs.take (n + 1)) ++ sealedSegs c P cph pk np (n + 1) (segs.drop (n + 1)) := by
+    conv => lhs; rw [← List.take_append_drop (n + 1) segs]
+    rw [sealedSegs_append]
+    simp; congr 1; omega
+  rw [h2, h1, List.append_assoc]
+  have hl : (sealedSegs c P cph pk np 0 (segs.take n)).length = n := by rw [hlen]; simp; omega
+  rw [List.getElem?_append_right (by omega), hl]
+  simp
+
+/-- **Segment deletion, duplication, swap (list level): the first displaced index decides.** If the
+    pieces presented to the loop are the honest sealed segments up to index `j` and then some *other*
+    honest sealed segment `i ≠ j` (with its own flag) — which is what deleting segment `j` (`i = j+1`),
+    duplicating segment `j-1` (`i = j-1`) or swapping segments `j` and `i` puts at position `j` — and
+    that segment's bytes differ from segment `j`'s, then exactly the first `j` segments are released
+    and the stream ends with `ErrDecryptionFailed`. -/
+theorem displaced_segment_detected (c : Crypto) (P : EncParams) (pwf : P.WF) (cph : Nat) (pk np : Bytes)
+    (lc : c.LawfulFor P pk np) (p : Bytes) (j i : Nat) (hj : j < (segments P.segSize p).length)
+    (hi : i < (segments P.segSize p).length) (hmax : j ≤ P.maxSeg)
+    (hdiff : ctOf c P cph pk np (segments P.segSize p) i ≠ ctOf c P cph pk np (segments P.segSize p) j)
+    (rest : List (Bytes × Bool)) (fin : Terminal)
+    (nf : PresentedNoForgery c P cph pk np (segments P.segSize p)
+      (sealedSegs c P cph pk np 0 ((segments P.segSize p).take j) ++
+        (ctOf c P cph pk np (segments P.segSize p) i, ((segments P.segSize p)[i]).2) :: rest) 0) :
+    (runSegs P.maxSeg (decryptSeg c P cph pk np)
+      (sealedSegs c P cph pk np 0 ((segments P.segSize p).take j) ++
+        (ctOf c P cph pk np (segments P.segSize p) i, ((segments P.segSize p)[i]).2) :: rest) 0 fin).out
+      = headTo (segments P.segSize p) j ∧
+    (runSegs P.maxSeg (decryptSeg c P cph pk np)
+      (sealedSegs c P cph pk np 0 ((segments P.segSize p).take j) ++
+        (ctOf c P cph pk np (segments P.segSize p) i, ((segments P.segSize p)[i]).2) :: rest) 0 fin).term
+      = .err .decryptFailed := by
+  have hsh := segments_shape P.segSize pwf.seg_pos p
+  obtain ⟨hpos, _, _, _⟩ := shape_getElem P.segSize _ i hi hsh
+  have hct := ctOf_length c P cph pk np lc _ i hi
+  apply first_displaced_detected c P cph pk np P.segSize pwf.seg_pos lc _ hsh j hj hmax _ _ rest ?_ fin nf
+  · left; rw [← ctOf_eq c P cph pk np _ j hj]; exact hdiff
+  · intro h; rw [h] at hct; simp at hct; omega
 
 /-! ### mechanism lemmas -/
 
